@@ -8,6 +8,13 @@ import traceback
 from . import build, common
 
 
+def _exit(code):
+    """replicat leaves non-daemon worker threads blocked after a failed command; never wait for them at interpreter exit"""
+    sys.stdout.flush()
+    sys.stderr.flush()
+    os._exit(code)
+
+
 def main():
     ap = argparse.ArgumentParser()
     ap.add_argument('prop')
@@ -23,7 +30,7 @@ def main():
     except Exception:
         traceback.print_exc()
         print(f'INFRA-ERROR property={prop}: build step crashed')
-        sys.exit(2)
+        _exit(2)
     if not info.get('native_ok', True):
         print(f'INFRA-NOTE property={prop}: native rebuild failed:\n{info.get("native_log", "")[-800:]}')
     mod = importlib.import_module(f'harness.props.{prop.lower()}')
@@ -33,7 +40,9 @@ def main():
             drv = common.Driver()
         if a.replay:
             rc = mod.replay(a.replay, drv)
-            sys.exit(rc)
+            if drv is not None:
+                drv.close()
+            _exit(rc)
         mod.run(out, drv, info)
         if a.tier == 'thorough' and info.get('proof_ok'):
             ok, log = mod.leanchecker(prop) if hasattr(mod, 'leanchecker') else build_leanchecker(prop)
@@ -44,12 +53,12 @@ def main():
     except Exception:
         traceback.print_exc()
         print(f'INFRA-ERROR property={prop}: harness crashed')
-        sys.exit(2)
+        _exit(2)
     finally:
         if drv is not None:
             info['driver_requests'] = dict(drv.ops)
             drv.close()
-    sys.exit(common.finish(out, info))
+    _exit(common.finish(out, info))
 
 
 def build_leanchecker(prop):
